@@ -46,12 +46,31 @@ def observe(text, ro_text=None):
         changed = []
         for n in (1, 2):
             impl.add(ro, mo)
+            if n == 1:
+                # later messages edit what this one carried in (items added to / removed from every story of the
+                # running order, metadata replaced): the message object must not notice
+                for sid, iids in _story_items(ro):
+                    if sid is None:
+                        continue
+                    for edit in ([B.item_insert(sid, B.BLANK, [B.item('later-item')])] +
+                                 ([B.item_delete(sid, [iids[0]])] if iids and iids[0] is not None else [])):
+                        try:
+                            impl.add(ro, impl.load(TJ.to_text(edit)))
+                        except Exception:  # noqa: BLE001
+                            pass
             again = read_object(mo)
             if again != out:
                 changed.append({'after_merges': n, 'exposed': again['exposed'], 'lines': again['lines']})
                 break
         out['after_merge'] = changed
     return out
+
+
+def _story_items(ro):
+    rc = ro.xml.find('roCreate')
+    if rc is None:
+        return []
+    return [(s.findtext('storyID') or None, [i.findtext('itemID') or None for i in s.findall('item')]) for s in rc.findall('story')]
 
 
 def read_object(mo):
